@@ -65,7 +65,7 @@ PURE_METHODS = NOISE_METHODS | {
 
 
 _PURE_LABEL = re.compile(r"\bself\b|\bitem\b|φ|loop\(|\.(take|pop|pop_front|pop_back|next|get|borrow|eat|peek|read|recv|insert|remove|push)\(|\b(?!new\(|from\(|default\(|from_slice\()[a-z_]+\([^)]*\)\.")
-OPTION_METHODS = {"ok_or", "ok_or_else", "is_some", "is_none", "is_ok", "is_err", "unwrap_or", "unwrap_or_else", "unwrap_or_default", "map_or", "map_or_else", "is_some_and", "is_ok_and", "is_none_or", "map", "and_then"}
+OPTION_METHODS = {"or_else", "or", "filter", "ok_or", "ok_or_else", "is_some", "is_none", "is_ok", "is_err", "unwrap_or", "unwrap_or_else", "unwrap_or_default", "map_or", "map_or_else", "is_some_and", "is_ok_and", "is_none_or", "map", "and_then"}
 # name -> 'Option' | 'Result' for the crates' own functions whose declared return type is one (set by lib.ast.Ast)
 RET_FAMILY = {}
 
@@ -1396,9 +1396,8 @@ class Run:
             r = ex["recv"]
             while r.get("k") in ("Ref", "Paren", "Unary"):
                 r = r["e"]
-            if r.get("k") == "Path" and r["path"] in ("self", "Self"):
-                return RET_FAMILY.get(m)
-            return None
+            # a method of the analysed crates whose every definition returns an Option (or a Result), whatever the receiver
+            return RET_FAMILY.get(m)
         if k == "Try":
             return None
         if k == "Field":
@@ -1444,6 +1443,16 @@ class Run:
         if m in ("is_ok", "is_err") and n == 0:
             ok, _ = self.present(recv, "Result")
             return ok if m == "is_ok" else not ok
+        if m in ("or_else", "or", "filter", "xor") and n == 1 and fam == "Option" and m != "xor":
+            ok, pay = self.present(recv, "Option")
+            if m == "filter":
+                if not ok:
+                    return ("ctor", "None", ())
+                keep = self.call_value(args[0], [pay])
+                return ("ctor", "Some", (pay,)) if self.truth(keep, None) else ("ctor", "None", ())
+            if ok:
+                return ("ctor", "Some", (pay,))
+            return args[0] if m == "or" else self.call_value(args[0], [])
         if m in ("ok_or", "ok_or_else") and n == 1 and (fam == "Option" or (isinstance(recv, tuple) and recv[0] == "ctor" and recv[1] in ("Some", "None"))):
             ok, pay = self.present(recv, "Option")
             if ok:
